@@ -148,6 +148,47 @@ func TestVerifC18(t *testing.T) {
 			return ""
 		})
 	}
+	// 2b. every defined value of the two debug-info flag types -- the combined ones too (DIFlagVirtualInheritance,
+	// DIFlagIndirectVirtualBase, ...), which the library's own set printer spells as their members -- written with
+	// the keyword its String method gives, through the parser of a module (irDIFlags / irDISPFlags)
+	for _, en := range verifC18Enums {
+		if en.typ != "DIFlag" && en.typ != "DISPFlag" {
+			continue
+		}
+		field := "flags"
+		if en.typ == "DISPFlag" {
+			field = "spFlags"
+		}
+		for _, c := range en.consts {
+			cases++
+			c := c
+			func() {
+				defer func() {
+					if e := recover(); e != nil {
+						fail("%s keyword %s: the parser of a module panics: %v", en.typ, c.str, e)
+					}
+				}()
+				text := fmt.Sprintf("!0 = !DISubprogram(name: \"f\", %s: %s)\n", field, c.str)
+				m2, err := ParseString("c18.ll", text)
+				if err != nil {
+					fail("%s keyword %s (the String of %s) is rejected by the parser of a module: %v", en.typ, c.str, c.name, err)
+					return
+				}
+				s := sp(m2)
+				if s == nil {
+					fail("%s keyword %s: subprogram lost", en.typ, c.str)
+					return
+				}
+				got := uint64(s.Flags)
+				if en.typ == "DISPFlag" {
+					got = uint64(s.SPFlags)
+				}
+				if got != c.val {
+					fail("%s keyword %s (=%#x) is read by the parser of a module as %#x", en.typ, c.str, c.val, got)
+				}
+			}()
+		}
+	}
 	for _, k := range sets(flagBits("AllocKind")) {
 		k := enum.AllocKind(k)
 		roundtrip(fmt.Sprintf("AllocKind set %#x", uint64(k)), func(m *ir.Module) {
